@@ -135,7 +135,46 @@ def d_dirlink(name, seed, base):
     return s
 
 
-DIRECTED = [("dirlink_a", d_dirlink), ("dirlink_b", d_dirlink), ("dirlink_c", d_dirlink), ("dirlink_d", d_dirlink), ("dirlink_e", d_dirlink),
+def d_planted(name, seed, base):
+    """unrelated files sit exactly at the temp names a FIRST dry run printed (`<victim>.<24 characters>`): a second dry-run
+    script and the real run must both leave them alone (temp names must be fresh each time)"""
+    rng = core.SplitMix64(seed)
+    s = X.Scn(name, seed, base)
+    s.roots = [os.path.join(s.treedir, b"r0")]
+    for i in range(3 + rng.below(3)):
+        data = treegen.content(seed + i, 10 + i)
+        s.mk(b"r0/keep/k%d" % i, data)
+        s.mk(b"r0/dup/v %d" % i, data)
+        # decoys that merely LOOK like temp names
+        s.mk(b"r0/dup/v %d.0123456789abcdef01234567" % i, treegen.content(seed + 100 + i, 9))
+    s.stamp_mtimes(rng)
+    s.fmt = rng.choice(["default", "json"])
+    X.pick_opts(s, core.SplitMix64(0), op={"a": "link", "b": "softlink", "c": "link", "d": "softlink"}[name.split("_")[1]])
+    s.op_opts, s.sem = [], {"n": None, "prio": [], "keep_name": [], "keep_path": [], "name": [], "path": [], "iso": [], "mlinks": False}
+    s.no_lock = False
+    s.use_sym, s.hostile = False, False
+
+    def post_group():
+        rc, dout, _ = s.run_op(dry_run=True)
+        work = os.path.join(s.base + b"_work", b"plant")
+        os.makedirs(work, exist_ok=True)
+        lines = [l for l in dout.split(b"\n") if l]
+        k = 0
+        for w in bash_split(lines, work):
+            if len(w) == 3 and w[0] == b"mv" and not os.path.lexists(w[2]) and w[2].startswith(s.treedir):
+                with open(w[2], "wb") as f:
+                    f.write(treegen.content(seed + 500 + k, 17))
+                os.utime(w[2], ns=(X.T0 * 10**9, X.T0 * 10**9))
+                k += 1
+        s.notes.append("%d files planted at the temp names of a first dry run" % k)
+        return None
+    s.post_group = post_group
+    return s
+
+
+DIRECTED = [("planted_a", d_planted), ("planted_b", d_planted), ("planted_c", d_planted), ("planted_d", d_planted),
+            ("matchlinks_a", C02.d_matchlinks), ("matchlinks_b", C02.d_matchlinks), ("matchlinks_c", C02.d_matchlinks),
+            ("matchlinks_d", C02.d_matchlinks), ("dirlink_a", d_dirlink), ("dirlink_b", d_dirlink), ("dirlink_c", d_dirlink), ("dirlink_d", d_dirlink), ("dirlink_e", d_dirlink),
             ("dirlink_f", d_dirlink), ("dirlink_g", d_dirlink), ("dirlink_h", d_dirlink),
             ("many_groups_a", d_many_groups), ("many_groups_b", d_many_groups), ("n6_a", d_n6), ("n6_b", d_n6),
             ("hostile_a", d_hostile), ("hostile_b", d_hostile), ("hostile_c", d_hostile)]
@@ -361,7 +400,7 @@ def run_case(model, scratch, kind, idx, seed):
         full1 = {p: e for p, e in full1.items() if not p.startswith(snap + b"/")}
         f0 = {p: e for p, e in full0.items() if p != snap and not p.startswith(snap + b"/")}
         victims = {p for p in f0 if not X.entry_same(f0[p], full1.get(p))}
-        queries = sorted(set(X.inventory(s.base)) - {snap} if False else set(f0) | {X.canon_temp(p, victims) for p in full1})
+        queries = sorted(set(X.inventory(s.base)) - {snap} if False else set(f0) | {X.canon_temp(p, victims, f0) for p in full1})
         try:
             m2 = X.parse_model_out(core.run_lines(model, [X.model_line(s, tree_aux, queries)])[0])
             d = X.compare_final(queries, f0, full1, m2["state"], victims)
